@@ -93,10 +93,14 @@ static int run_random(uint64_t seed, long n) {
           // "hold or step": per component exactly half of the frame-to-frame deltas are 0, the other half spread evenly over +-1..+-W (W = 2^k): with
           // enough frames the residual alphabet is large and one symbol holds probability exactly 1/2 -- the table-precision boundaries of the entropy coder
           const int W = forced ? 512 : 1 << r.range(3, 9);
-          int32_t cur = 0;
-          for (int k = 0; k < frames; ++k) {
-            if (k % 2) cur += (int32_t)(((k / 2) % W) + 1) * (((k / 2) / W) % 2 ? -1 : 1);
-            for (int c = 0; c < tr.comps; ++c) tr.iv[(size_t)k * tr.comps + c] = cur + c;
+          // even components step on odd frames, odd components on even frames, every component walks the steps from another start: no frame is all
+          // holds, so coding every value with the raw scheme (one big table) beats tagging whole frames with their bit length
+          for (int c = 0; c < tr.comps; ++c) {
+            int32_t cur = 0; int n = 37 * c;
+            for (int k = 0; k < frames; ++k) {
+              if ((k % 2) == (c % 2 ? 0 : 1)) { cur += (int32_t)((n % W) + 1) * ((n / W) % 2 ? -1 : 1); ++n; }
+              tr.iv[(size_t)k * tr.comps + c] = cur;
+            }
           }
         } else
         for (auto &x : tr.iv)
